@@ -44,9 +44,9 @@ func (c06Driver) Gen(r *Rand, tier string) []json.RawMessage {
 		reps = 12
 	}
 	for k := 0; k < reps; k++ {
-		for _, sc := range []string{"new-bug", "edit-bug", "merge-diverged", "new-identity", "mutate-identity", "pull-many"} {
+		for _, sc := range []string{"new-bug", "edit-bug", "merge-diverged", "new-identity", "mutate-identity", "pull-many", "pull-bugs", "pull-identities"} {
 			for np := 1; np <= 3; np++ {
-				if (sc == "new-identity" || sc == "mutate-identity" || sc == "merge-diverged") && np > 1 {
+				if (sc == "new-identity" || sc == "mutate-identity" || sc == "merge-diverged" || sc == "pull-bugs" || sc == "pull-identities") && np > 1 {
 					continue
 				}
 				res = append(res, mustJSON(c06Input{Scenario: sc, NPacks: np, NOps: r.Range(1, 3), Salt: r.Intn(1000)}))
@@ -108,6 +108,12 @@ func (c *crashRepo) StoreSignedCommit(t repository.Hash, k *openpgp.Entity, p ..
 		return "", errDead
 	}
 	return c.TestedRepo.StoreSignedCommit(t, k, p...)
+}
+func (c *crashRepo) FetchRefs(remote string, prefixes ...string) (string, error) {
+	if !c.tick("fetch") {
+		return "", errDead
+	}
+	return c.TestedRepo.FetchRefs(remote, prefixes...)
 }
 func (c *crashRepo) UpdateRef(ref string, h repository.Hash) error {
 	if !c.tick("ref:" + ref) {
@@ -254,13 +260,25 @@ func (c06Driver) Run(raw json.RawMessage) Case {
 	peerRes := entity.Resolvers{&identity.Identity{}: identity.NewSimpleResolver(peer)}
 	p0, _ := identity.ReadLocal(peer, authorIDs[1])
 	must(bug.Pull(peer, peerRes, "origin", p0), "peer pull")
-	if in.Scenario == "merge-diverged" || in.Scenario == "pull-many" {
+	if in.Scenario == "pull-identities" {
+		// the peer publishes a new identity and a new version of an existing one
+		ni, err := identity.NewIdentity(peer, "peer newcomer", "pn@x.org")
+		must(err, "peer identity")
+		must(ni.Commit(peer), "peer identity commit")
+		pa, err := identity.ReadLocal(peer, authorIDs[2])
+		must(err, "peer read identity")
+		must(pa.Mutate(peer, func(m *identity.Mutator) { m.Name = "renamed by the peer" }), "peer mutate")
+		must(pa.Commit(peer), "peer mutate commit")
+		_, err = identity.Push(peer, "origin")
+		must(err, "peer identity push")
+	}
+	if in.Scenario == "merge-diverged" || in.Scenario == "pull-many" || in.Scenario == "pull-bugs" {
 		// the peer edits bug 0 (-> diverged after our own edit), bug 1 (-> fast-forward) and creates a new one
 		pb, err := bug.Read(peer, bugIDs[0])
 		must(err, "peer read")
 		_, _, _ = bug.AddComment(pb, p0, 1600000100, "peer comment", nil, nil)
 		must(pb.Commit(peer), "peer commit")
-		if in.Scenario == "pull-many" {
+		if in.Scenario == "pull-many" || in.Scenario == "pull-bugs" {
 			pb1, _ := bug.Read(peer, bugIDs[1])
 			_, _, _ = bug.AddComment(pb1, p0, 1600000101, "peer comment on 1", nil, nil)
 			must(pb1.Commit(peer), "peer commit 1")
@@ -273,8 +291,10 @@ func (c06Driver) Run(raw json.RawMessage) Case {
 		must(err, "local read")
 		_, _, _ = bug.AddComment(lb, a0, 1600000103, "local comment", nil, nil)
 		must(lb.Commit(pre), "local commit")
-		_, err = bug.Fetch(pre, "origin")
-		must(err, "fetch")
+		if in.Scenario != "pull-bugs" {
+			_, err = bug.Fetch(pre, "origin")
+			must(err, "fetch")
+		}
 	}
 	_ = pre.Close()
 	_ = peer.Close()
@@ -330,6 +350,11 @@ func (c06Driver) Run(raw json.RawMessage) Case {
 				}
 			}
 			return x.Commit(repo)
+		case "pull-bugs":
+			res := entity.Resolvers{&identity.Identity{}: identity.NewSimpleResolver(repo)}
+			return bug.Pull(repo, res, "origin", authors[0])
+		case "pull-identities":
+			return identity.Pull(repo, "origin")
 		case "merge-diverged", "pull-many":
 			res := entity.Resolvers{&identity.Identity{}: identity.NewSimpleResolver(repo)}
 			// drain the channel: the merging goroutine must have finished before the repository is closed
@@ -348,7 +373,7 @@ func (c06Driver) Run(raw json.RawMessage) Case {
 		if err != nil {
 			return nil, false, err
 		}
-		cr := &crashRepo{TestedRepo: r, trip: trip, soft: in.Scenario == "merge-diverged" || in.Scenario == "pull-many"}
+		cr := &crashRepo{TestedRepo: r, trip: trip, soft: in.Scenario == "merge-diverged" || in.Scenario == "pull-many" || in.Scenario == "pull-bugs" || in.Scenario == "pull-identities"}
 		func() {
 			defer func() {
 				if p := recover(); p != nil {
@@ -541,7 +566,7 @@ func (c06Driver) Run(raw json.RawMessage) Case {
 	var tr []string
 	for _, t := range trace {
 		switch {
-		case t == "obj":
+		case t == "obj", t == "fetch":
 			tr = append(tr, "MObj")
 		case strings.HasPrefix(t, "clock:"):
 			tr = append(tr, "MClock")
